@@ -427,7 +427,7 @@ func runC35(rec *kit.Recorder, active map[string]bool, c c35Case) error {
 		lab := append([]string{"phase:merge", "mode:fail", "fail:" + target.Op.Kind}, r.labels...)
 		key := fmt.Sprintf("%s|merge|fail|%s#%d", r.ckey, id, idSeq)
 		if failed == nil {
-			rec.Eval(key, false, append(lab, "fail-not-reached")...)
+			rec.Eval(key, false, append(lab, "fail-not-reached:"+id)...)
 			os.RemoveAll(dir)
 			continue
 		}
@@ -513,7 +513,7 @@ func runC35(rec *kit.Recorder, active map[string]bool, c c35Case) error {
 		lab := append([]string{"phase:explode", "mode:fail", "fail:" + target.Op.Kind}, r.labels...)
 		key := fmt.Sprintf("%s|explode|fail|%s#%d", r.ckey, id, idSeq)
 		if failed == nil {
-			rec.Eval(key, false, append(lab, "fail-not-reached")...)
+			rec.Eval(key, false, append(lab, "fail-not-reached:"+id)...)
 			os.RemoveAll(dir)
 			continue
 		}
